@@ -42,6 +42,10 @@ def gen_cases(rng, tier, drift):
             cfg = si.gen_cfg(rng, kinds=("map",))
             cfg["n"], cfg["bs"] = rng.randint(3, 8), 2
             cases.append(dict(cfg=cfg, Ws=W, Wl=W, k=1, empty=True))
+            # {} loaded into a loader whose state_dict() was taken before any iteration (that call builds the iterator),
+            # and into one that has just been given a valid state
+            cases.append(dict(cfg=dict(cfg), Ws=W, Wl=W, k=1, empty=True, before="state"))
+            cases.append(dict(cfg=dict(cfg), Ws=W, Wl=W, k=1, empty=True, before="load+state"))
     return cases
 
 
@@ -93,11 +97,15 @@ def run_impl(c):
         ref_l = [b if isinstance(b, list) else [b] for b in si.batches_ref(cl)]
         dl2 = si.make_loader(cl)
         if c["empty"]:
+            if c.get("before") == "load+state":
+                dl2.load_state_dict(sd)      # consumed by the iterator that state_dict() builds, which {} then drops: a fresh epoch
+            if c.get("before"):
+                dl2.state_dict()
             dl2.load_state_dict({})
             r = first_iteration(dl2)
             if r != ["data", ref_l]:
                 fails.append(f"load_state_dict({{}}) then iteration: {r}, expected a fresh epoch {ref_l}")
-            return dict(obs=["empty", r[0]], oracle="; ".join(fails) or None, nontrivial=True, key=[c["Ws"], c["cfg"]["kind"], "empty"])
+            return dict(obs=["empty", r[0]], oracle="; ".join(fails) or None, nontrivial=True, key=[c["Ws"], c["cfg"]["kind"], "empty", c.get("before")])
         dl2.load_state_dict(sd)
         r1 = first_iteration(dl2)
         left = children() if r1[0] == "raises" else 0
@@ -141,7 +149,8 @@ def run_impl(c):
 def model_term(c, r):
     Ws, Wl = c["Ws"], c["Wl"]
     if c["empty"]:
-        return ('OL [OS "empty"; match fst (fc_iter %d (fc_load {| fc_pending := None; fc_children := 0 |} None)) with IterOk => OS "data" | IterRaises => OS "raises" end]' % Wl)
+        f0 = "{| fc_pending := None; fc_children := 0 |}"      # (a state loaded before was consumed by state_dict()'s iterator)
+        return ('OL [OS "empty"; match fst (fc_iter %d (fc_load %s None)) with IterOk => OS "data" | IterRaises => OS "raises" end]' % (Wl, f0))
     res = 'fun r => match r with IterOk => OS "data" | IterRaises => OS "raises" end'
     if Ws == Wl:
         return (f'let \'(r1, f1) := fc_iter {Wl} (fc_load {{| fc_pending := None; fc_children := 0 |}} (Some (shape_of {Ws}))) in '
